@@ -606,13 +606,11 @@ Fixpoint fp_prio (lowest j : N) (ps : list (N * option N)) (plabels elabels : li
   end.
 Definition member_prio (lb : lb_in) (x : lmember) : N :=
   fp_prio (N.of_nat (length (l_prio lb))) 0 (l_prio lb) (l_proxy_labels lb) (fst x).
-Definition U32MOD : N := 4294967296.
-Definition wrap_sum (ws : list N) : N := fold_left (fun a b => (a + b) mod U32MOD) ws 0.    (* uint32 += *)
 (* one LocalityLbEndpoints is split into one per priority present, members keep their order; the
-   weight is re-summed with a plain uint32 += *)
+   weight is re-summed with a saturating add *)
 Definition split_group (lb : lb_in) (g : lgroup_l) : list pgroup_l :=
   map (fun p => let ms := filter (fun x => member_prio lb x =? p) (snd g) in
-                (fst (fst g), p, Some (wrap_sum (map (fun x => m_weight (snd x)) ms)), ms))
+                (fst (fst g), p, Some (sat_sum (map (fun x => m_weight (snd x)) ms)), ms))
       (prios_of (member_prio lb) (snd g)).
 (* applyFailoverPriorities *)
 Definition apply_failover_priorities (lb : lb_in) (gs : list lgroup_l) : list pgroup_l :=
